@@ -16,6 +16,7 @@ import multiprocessing as mp
 ROOT = os.path.dirname(os.path.dirname(os.path.abspath(__file__)))
 OUT = os.environ.get('VF_OUTDIR') or ROOT  # evidence/ and replays/ go here (mutant runs use a scratch dir)
 NCPU = int(os.environ.get('VF_WORKERS', '0')) or min(16, os.cpu_count() or 1)
+HYP_JOB_CAP = 2500  # Hypothesis examples per job process
 WATCHDOG_S = 30
 
 
@@ -298,6 +299,71 @@ def _w_custom(args):
     return st
 
 
+def _job_child(conn, func, job):
+    import resource
+    try:
+        res = ('ok', func(job))
+    except BaseException:  # noqa  (reported to the parent as a harness error, never as a verdict)
+        res = ('err', traceback.format_exc()[-3000:])
+    try:
+        conn.send(res + (resource.getrusage(resource.RUSAGE_SELF).ru_maxrss // 1024,))
+        conn.close()
+    finally:
+        os._exit(0)
+
+
+class LostJob(Exception):
+    pass
+
+
+def run_jobs(func, jobs, nproc, info=None):
+    """Every job runs in a forked process of its own (no state or memory carried from one job to the next);
+    results are yielded as they arrive.  A process that disappears without a result (OOM killer, a stray signal)
+    is started again once; a second loss raises LostJob - the run ends as a harness error instead of waiting forever."""
+    from multiprocessing.connection import wait
+    ctx = mp.get_context('fork')
+    it = iter(jobs)
+    running = {}
+    info = info if info is not None else {}
+    exhausted = False
+
+    def start(job, attempt):
+        r, w = ctx.Pipe(duplex=False)
+        pr = ctx.Process(target=_job_child, args=(w, func, job))
+        pr.start()
+        w.close()
+        running[r] = (pr, job, attempt)
+
+    while True:
+        while not exhausted and len(running) < nproc:
+            try:
+                start(next(it), 0)
+            except StopIteration:
+                exhausted = True
+        if not running:
+            return
+        for r in wait(list(running)):
+            pr, job, attempt = running.pop(r)
+            try:
+                msg = r.recv()
+            except (EOFError, OSError):
+                msg = None
+            r.close()
+            pr.join()
+            if msg is None:
+                info['lost_jobs'] = info.get('lost_jobs', 0) + 1
+                if attempt >= 1:
+                    for r2, (p2, _, _) in list(running.items()):
+                        p2.kill()
+                    raise LostJob('a worker process died twice (exit code %r) on job %s' % (pr.exitcode, _short(job)))
+                start(job, attempt + 1)
+                continue
+            info['max_job_rss_mb'] = max(info.get('max_job_rss_mb', 0), msg[2])
+            if msg[0] == 'err':
+                raise LostJob('worker raised outside the harness\' own handling:\n' + msg[1])
+            yield msg[1]
+
+
 def _chunks(it, size):
     buf = []
     for x in it:
@@ -346,11 +412,16 @@ def run_property(modname, tier, seed_value):
     per_part['replay'] = total.cases
 
     # 2. the parts
-    ctx = mp.get_context('fork')
     parts = mod.parts(tier, seed_value)
-    with ctx.Pool(NCPU) as pool:
+    import hypothesis  # noqa  (imported before forking: every job process inherits it)
+    jobinfo = {}
+    if True:
         for part in parts:
             kind, name = part[0], part[1]
+            opts = part[-1] if isinstance(part[-1], dict) else {}
+            if opts:
+                part = part[:-1]
+            nproc = min(NCPU, opts.get('nproc', NCPU))  # memory-hungry parts (whole-column references) ask for fewer processes
             before = total.evaluations
             t_part = time.time()
             if budget and time.time() - t0 > budget:
@@ -360,22 +431,24 @@ def run_property(modname, tier, seed_value):
                 cases, chunk = part[2], (part[3] if len(part) > 3 else 100)
                 exh = part[4] if len(part) > 4 else False
                 jobs = ((modname, c) for c in _chunks(cases, chunk))
-                for st in pool.imap_unordered(_w_enum, jobs):
+                for st in run_jobs(_w_enum, jobs, nproc, jobinfo.setdefault(name, {})):
                     total.merge(st)
                 exhaustive[name] = bool(exh)
             elif kind == 'hyp':
                 n = part[2]
                 min_per = part[3] if len(part) > 3 else 20
                 shards = min(NCPU, max(1, n // min_per))
+                if n // shards > HYP_JOB_CAP:  # long searches are cut into more jobs: a job's memory ends with its process
+                    shards = -(-n // HYP_JOB_CAP)
                 per = max(1, n // shards)
-                jobs = [(modname, name, per, seed_value * 64 + i, tier) for i in range(shards)]
-                for st in pool.imap_unordered(_w_hyp, jobs):
+                jobs = [(modname, name, per, seed_value * 4096 + i, tier) for i in range(shards)]
+                for st in run_jobs(_w_hyp, jobs, nproc, jobinfo.setdefault(name, {})):
                     total.merge(st)
                 exhaustive[name] = False
             elif kind == 'custom':
                 fname, arglist = part[2], part[3]
                 jobs = [(modname, fname, a, tier, seed_value) for a in arglist]
-                for st in pool.imap_unordered(_w_custom, jobs):
+                for st in run_jobs(_w_custom, jobs, nproc, jobinfo.setdefault(name, {})):
                     total.merge(st)
                 exhaustive[name] = bool(part[4]) if len(part) > 4 else False
             else:
@@ -431,6 +504,7 @@ def run_property(modname, tier, seed_value):
             'known_findings_open': [fd['id'] for fd in still_open],
             'budget_exhausted': budget_exhausted,
             'workers': NCPU,
+            'job_processes': jobinfo,
             'notes': total.notes[:20],
         },
         'assumptions': list(getattr(mod, 'ASSUMPTIONS', [])),
